@@ -292,8 +292,10 @@ class Life:
             t.call(OWNER, "deposit", esdts=[(PAY_TOK, 0, amt)], probe=True)
         elif k == 2:
             t.call(OWNER, "deposit", egld=amt, probe=True)
-        elif amt >= 2:
+        elif amt >= 2 and r.chance(1, 2):
             t.call(OWNER, "deposit", esdts=[(LP_TOK, 0, amt - 1), (LP_TOK, 0, 1)], probe=True)
+        else:
+            t.call(OWNER, "deposit", esdts=[(LP_TOK, 1, amt)], probe=True)      # launchpad token id, non-fungible
         t.call(OWNER, "deposit", esdts=[(LP_TOK, 0, amt)])
         t.dump()
 
@@ -409,6 +411,9 @@ class Life:
                 elif kind == 3 and self.paytok != 0:
                     half = self.price * n // 2
                     res = t.call(u, "confirm", [n], esdts=[(self.paytok, 0, half), (self.paytok, 0, self.price * n - half)])
+                elif kind == 4 and self.paytok != 0 and r.chance(1, 2):
+                    # the payment token's identifier and the exact amount, but as a non-fungible (nonce 1)
+                    res = t.call(u, "confirm", [n], esdts=[(self.paytok, 1, self.price * n)])
                 elif kind == 4:
                     res = t.call(u, "confirm", [n], esdts=[(OTHER_TOK, 1, self.price * n + 1)])
                 else:
@@ -445,7 +450,7 @@ class Life:
                         if kk == 0:
                             feepay = {"esdts": [(OTHER_TOK, 0, self.fee)]}
                         elif kk == 1:
-                            feepay = {"esdts": [(OTHER_TOK, 1, self.fee)]}      # a non-fungible payment (accounts hold OTHER_TOK nonce 1)
+                            feepay = {"esdts": [(self.feetok if self.feetok != 0 else OTHER_TOK, 1, self.fee)]}   # a non-fungible payment
                         elif self.feetok != 0 and self.fee >= 2:
                             feepay = {"esdts": [(self.feetok, 0, self.fee - 1), (self.feetok, 0, 1)]}
                     res = t.call(x, "confirmNft", **feepay)
